@@ -558,6 +558,35 @@ type c03viol struct{ clause, detail string }
 
 // runSeq applies the sequence (as methods, or as New options when viaOpts and every op has an
 // option form) to a fresh logger of the given kind, probes every severity and compares with the model.
+// c03fanoutW is a LevelSettable destination that applications pass by value; its type is not comparable (a slice field).
+type c03fanoutW struct {
+	st    *c03fanoutState
+	sinks []io.Writer
+}
+
+type c03fanoutState struct {
+	writes, toldBeforeWrite int
+	told                    bool
+	lvl                     slog.Level
+}
+
+func (f c03fanoutW) SetLevel(l slog.Level) { f.st.told, f.st.lvl = true, l }
+func (f c03fanoutW) Write(p []byte) (int, error) {
+	f.st.writes++
+	want := slog.InfoLevel
+	if f.st.writes == 2 {
+		want = slog.ErrorLevel
+	}
+	if f.st.told && f.st.lvl == want {
+		f.st.toldBeforeWrite++
+	}
+	f.st.told = false
+	for _, s := range f.sinks {
+		_, _ = s.Write(p)
+	}
+	return len(p), nil
+}
+
 func (e *c03env) runSeq(kind string, viaOpts bool, ops []wop, rp func(k string, n int64)) []c03viol {
 	e.capped = !e.capped
 	if e.capped {
@@ -600,6 +629,28 @@ func (e *c03env) runSeq(kind string, viaOpts bool, ops []wop, rp func(k string, 
 		rp("records_issued_from_inside_a_destination_of_the_same_logger", 1)
 		if rw.outer != 1 || gotInner != 1 {
 			return []c03viol{{"routing", fmt.Sprintf("a normal destination that issues an Error record through the same logger from inside its Write: it was handed the outer record %d time(s) (expected 1), the error destination got the inner record %d time(s) (expected 1)", rw.outer, gotInner)}}
+		}
+	}
+	// a LevelSettable destination passed BY VALUE whose type holds a slice (a fan-out writer): it sits behind another
+	// destination in the normal list; it is told the severity and handed the record like any other
+	{
+		e.seq++
+		fl := slog.New(fmt.Sprintf("fanout%d", e.seq)).Root()
+		fl.SetColorMode(false)
+		fl.SetLevel(slog.AlwaysLevel)
+		fo := c03fanoutW{st: &c03fanoutState{}, sinks: []io.Writer{io.Discard}}
+		var panicked any
+		e.log.Reset()
+		func() {
+			defer func() { panicked = recover() }()
+			fl.SetWriter(e.pool[0]).AddWriter(fo)
+			fl.SetErrorWriter(e.pool[1]).AddErrorWriter(slog.NewLogWriter(fo))
+			fl.Info(fmt.Sprintf("to-the-fanout-%d-", e.seq))
+			fl.Error(fmt.Sprintf("to-the-fanout-%d-", e.seq))
+		}()
+		rp("records_to_a_level_settable_destination_of_an_uncomparable_value_type", 2)
+		if panicked != nil || fo.st.writes != 2 || fo.st.toldBeforeWrite != 2 || len(e.log.Writes("W0")) != 1 || len(e.log.Writes("W1")) != 1 {
+			return []c03viol{{"setlevel", fmt.Sprintf("a LevelSettable fan-out destination passed by value (its type holds a slice) behind another destination, one Info and one Error record: panic %v; it was handed %d record(s) (expected 2), told the severity right before %d of them; the destinations in front of it got %d and %d record(s) (expected 1 and 1)", panicked, fo.st.writes, fo.st.toldBeforeWrite, len(e.log.Writes("W0")), len(e.log.Writes("W1")))}}
 		}
 	}
 	rp("sequences_followed_by_a_Close_of_another_loggers_own_default_devices", 1)
